@@ -646,6 +646,44 @@ def run(ctx):
             run_reqs.append({"op": "asm.run", "p": p, "fuel": 1000, "regs": [], "unit": 3,
                              "query": [list(r) for r in named]})
             run_src.append((src, named))
+    # ------------------------------------------------ stream E: process-wide configuration
+    # Every configuration knob of the package (settings, environment variables the source reads, log
+    # level — discovered by harness/codec.global_configs) must leave the property alone: the corpora and
+    # programs with REPEATED literals are assembled, executed and judged exactly like the main stream.
+    from harness import codec as HC
+    cfg_progs = [copy.deepcopy(p) for p in MUTATION_CORPUS + CORPUS]
+    cfg_progs += [H.gen_repeated_literals(rng) for _ in range(40 if ctx.thorough else 14)]
+    base_front = [(t, H.real_parse_front(t)) for t in FRONT_CORPUS[:12]]
+    base_asm = [H.real_assemble(p)[0] for p in cfg_progs]
+    n_cfg = [0]
+
+    def cfg_body(cname):
+        res.count("config:" + cname.split("(")[0])
+        for p, b in zip(cfg_progs, base_asm):
+            res.evaluations += 1
+            got = H.real_assemble(p)[0]
+            # executed comparison only: a configuration may legitimately change the SHAPE of the output
+            bad = H.oracle(p, static=False)
+            if bad is None and "ok" in b and "err" in got:
+                bad = {"what": "the assembler refuses a program that satisfies its preconditions"}
+            if bad is not None and n_cfg[0] <= 3:
+                n_cfg[0] += 1
+                small = (H.shrink(p, lambda q: H.oracle(q, static=False) is not None)
+                         if H.oracle(p, static=False) is not None else p)
+                res.failures.append({"what": bad["what"] + " [under configuration " + cname + "]", "kf": None,
+                                     "input": {"configuration": cname, "program": small, "detail": H.oracle(small, static=False),
+                                               "default_configuration": b, "this_configuration": H.real_assemble(small)[0]}})
+        for t, b in base_front:
+            res.evaluations += 1
+            got = H.real_parse_front(t)
+            if got != b and n_cfg[0] <= 3:
+                n_cfg[0] += 1
+                res.failures.append({"what": "the text front end depends on a process-wide configuration [" + cname + "]",
+                                     "kf": None, "input": {"configuration": cname, "text": t, "default": b, "this": got}})
+
+    ran = HC.under_every_config(cfg_body)
+    res.count("configs-run", len(ran))
+
     # ------------------------------------------------ stream D: the Lean semantics itself (on fault-free runs)
     for rq, (src, named), mm in zip(run_reqs, run_src, H.batch(drv, run_reqs)):
         res.evaluations += 1
